@@ -39,12 +39,18 @@ type c03Case struct {
 	// (xmlns:Destination, xmlns:Version on the root, xmlns:Recipient and xmlns:NotOnOrAfter on
 	// SubjectConfirmationData, xmlns:Value on StatusCode); they are not attributes
 	Shadow bool `json:"xmlns_shadow,omitempty"`
+	// Prefix: the prefix style of the message (idp.Layout.Prefix: 0 samlp/saml declared on the
+	// root, 2 default namespaces only, so that no element declares a prefix of its own)
+	Prefix int `json:"prefix_style,omitempty"`
+	// ShadowBelow (with Shadow): the root start tag is left alone; only SubjectConfirmationData
+	// and StatusCode get such declarations
+	ShadowBelow bool `json:"xmlns_shadow_below_root_only,omitempty"`
 }
 
-var c03ShadowRe = regexp.MustCompile(`(<saml:SubjectConfirmationData[^>]*?)(/?>)`)
-var c03ShadowStatusRe = regexp.MustCompile(`(<samlp:StatusCode[^>]*?)(/?>)`)
+var c03ShadowRe = regexp.MustCompile(`(<(?:\w+:)?SubjectConfirmationData[^>]*?)(/?>)`)
+var c03ShadowStatusRe = regexp.MustCompile(`(<(?:\w+:)?StatusCode[^>]*?)(/?>)`)
 
-func c03ShadowEdit(enc string) string {
+func c03ShadowEdit(enc string, belowOnly ...bool) string {
 	raw, err := base64.StdEncoding.DecodeString(enc)
 	if err != nil {
 		return enc
@@ -54,7 +60,9 @@ func c03ShadowEdit(enc string) string {
 	if gt > 0 && x[gt-1] == '/' {
 		gt--
 	}
-	x = x[:gt] + ` xmlns:Destination="` + world.ACS + `" xmlns:Version="2.0"` + x[gt:]
+	if len(belowOnly) == 0 || !belowOnly[0] {
+		x = x[:gt] + ` xmlns:Destination="` + world.ACS + `" xmlns:Version="2.0"` + x[gt:]
+	}
 	x = c03ShadowRe.ReplaceAllString(x, `${1} xmlns:Recipient="`+world.ACS+`" xmlns:NotOnOrAfter="2039-01-01T00:00:00Z"${2}`)
 	x = c03ShadowStatusRe.ReplaceAllString(x, `${1} xmlns:Value="`+idp.StatusSuccess+`"${2}`)
 	return base64.StdEncoding.EncodeToString([]byte(x))
@@ -83,6 +91,31 @@ func c03NearMiss(v string, kind ...int) string {
 	}
 	if len(kind) > 0 && kind[0] == 2 {
 		return " " + v + "\n"
+	}
+	if len(kind) > 0 && kind[0] >= 3 {
+		// the same URL as a URL library might see it, another string as the statement sees it
+		i := strings.Index(v, "//")
+		j := i + 2 + strings.Index(v[i+2:]+"/", "/")
+		scheme, host, rest := v[:i+2], v[i+2:j], v[j:]
+		switch kind[0] {
+		case 3:
+			return v + "?x=1"
+		case 4:
+			return v + "#fragment"
+		case 5:
+			return scheme + "user@" + host + rest
+		case 6:
+			return scheme + strings.ToUpper(host) + rest
+		case 7:
+			return scheme + host + ":443" + rest
+		case 8:
+			return scheme + host + "/." + rest
+		case 9:
+			if len(rest) > 1 {
+				return scheme + host + rest[:1] + fmt.Sprintf("%%%02X", rest[1]) + rest[2:]
+			}
+			return v + "%20"
+		}
 	}
 	i := strings.Index(v, "//")
 	j := strings.Index(v[i+2:], "/")
@@ -114,6 +147,14 @@ func c03Spec(d c03Dims, cfg int) idp.ResponseSpec {
 	case 6:
 		r.Destination = c03NearMiss(world.ACS, 2) // surrounded by whitespace
 	}
+	if d.Dest >= 7 {
+		// 7..13: what a URL library would call the same URL (query, fragment, userinfo, host case,
+		// default port, dot segment, percent-encoded letter)
+		r.Destination = c03NearMiss(world.ACS, d.Dest-4)
+	}
+	if d.Issuer >= 6 {
+		r.Issuer = c03NearMiss(world.IDPIssuer, d.Issuer-3)
+	}
 	switch d.Issuer {
 	case 1:
 		r.Issuer = "https://other-idp.example.com/metadata"
@@ -142,6 +183,12 @@ func c03Spec(d c03Dims, cfg int) idp.ResponseSpec {
 	}
 	for i := 0; i < d.N; i++ {
 		a := &r.Assertions[i]
+		if d.A[i][0] >= 6 {
+			a.Issuer = c03NearMiss(world.IDPIssuer, d.A[i][0]-3)
+		}
+		if d.A[i][2] >= 6 {
+			a.Recipient = c03NearMiss(world.ACS, d.A[i][2]-3)
+		}
 		switch d.A[i][0] {
 		case 1:
 			a.Issuer = "https://other-idp.example.com/metadata"
@@ -328,9 +375,10 @@ func c03FaultClass(v []c03Viol) string {
 
 func c03Exec(c c03Case) (keys []string, detail string, class string) {
 	spec := c03Spec(c.D, c.Cfg)
+	spec.Layout.Prefix = c.Prefix
 	enc := idp.RenderResponse(spec)
 	if c.Shadow {
-		enc = c03ShadowEdit(enc)
+		enc = c03ShadowEdit(enc, c.ShadowBelow)
 	}
 	v := c03Model(c.D, c.Cfg)
 	conf := c03Conf(c.Cfg)
@@ -518,11 +566,32 @@ func c03Cases(thorough bool, stop func() bool) (cases []c03Case, shapes int, bou
 			complete = false
 		}
 	}
+	// URL-equivalent spellings of every compared URL, one at a time, on one assertion and on the
+	// second of two
+	for nm := 3; nm <= 9; nm++ {
+		for n := 1; n <= 2; n++ {
+			base := func() c03Dims {
+				d := c03Dims{N: n}
+				for i := 0; i < n; i++ {
+					d.A = append(d.A, [4]int{})
+				}
+				return d
+			}
+			d1, d2, d3, d4 := base(), base(), base(), base()
+			d1.Dest, d2.Issuer = nm+4, nm+3
+			d3.A[n-1][0], d4.A[n-1][2] = nm+3, nm+3
+			dims = append(dims, d1, d2, d3, d4)
+		}
+	}
 	for _, d := range dims {
 		for cfg := 0; cfg < len(c03CfgNames); cfg++ {
 			cases = append(cases, c03Case{D: d, Cfg: cfg})
 			if cfg < 3 {
 				cases = append(cases, c03Case{D: d, Cfg: cfg, Shadow: true})
+				if d.N <= 1 || cfg == 2 {
+					cases = append(cases, c03Case{D: d, Cfg: cfg, Shadow: true, Prefix: 2})
+					cases = append(cases, c03Case{D: d, Cfg: cfg, Shadow: true, Prefix: 2, ShadowBelow: true})
+				}
 			}
 		}
 	}
@@ -530,7 +599,7 @@ func c03Cases(thorough bool, stop func() bool) (cases []c03Case, shapes int, bou
 }
 
 func c03Run(r *mc.Run) {
-	r.Rule = "deviation-bounded DFS over profile-fault dimensions (Response: version, destination, issuer, status; per assertion position: issuer, subject structure, recipient, NotOnOrAfter) for n=0..3 assertions x 10 configurations (Response-signed, assertion-signed, skip-signature, each with and without a configured IdP issuer; Response- and assertion-signed with every assertion encrypted; skip-signature with every assertion encrypted, where nothing is decrypted and the Response must be rejected for having no assertion, with and without a configured issuer) (the first three configurations also with declarations of unused namespace prefixes named like the checked attributes, holding the expected values, added after signing) x 3 entry points (ValidateEncodedResponse, RetrieveAssertionInfo, and the exported Validate on a types.Response the caller decoded with encoding/xml), each case judged on fresh instances and again, in sequence on one goroutine, on long-lived instances (one per configuration); non-trivial = the document got past decoding and signature processing into the profile validation (error is nil or a typed validation error); distinct = distinct (dims,cfg)"
+	r.Rule = "deviation-bounded DFS over profile-fault dimensions (Response: version, destination, issuer, status; per assertion position: issuer, subject structure, recipient, NotOnOrAfter; every compared URL also in 7 spellings a URL library would call the same URL, one at a time) for n=0..3 assertions x 10 configurations (Response-signed, assertion-signed, skip-signature, each with and without a configured IdP issuer; Response- and assertion-signed with every assertion encrypted; skip-signature with every assertion encrypted, where nothing is decrypted and the Response must be rejected for having no assertion, with and without a configured issuer) (the first three configurations also with declarations of unused namespace prefixes named like the checked attributes, holding the expected values, added after signing, to messages with prefixed names and to messages that use default namespaces only, there also with the root start tag left alone) x 3 entry points (ValidateEncodedResponse, RetrieveAssertionInfo, and the exported Validate on a types.Response the caller decoded with encoding/xml), each case judged on fresh instances and again, in sequence on one goroutine, on long-lived instances (one per configuration); non-trivial = the document got past decoding and signature processing into the profile validation (error is nil or a typed validation error); distinct = distinct (dims,cfg)"
 	cases, shapes, bounds, complete := c03Cases(r.Thorough(), r.Expired)
 	if !complete {
 		r.Cap("enumeration stopped by deadline")
@@ -547,7 +616,7 @@ func c03Run(r *mc.Run) {
 		r.Transition(2)
 		r.Bucket(class)
 		if !strings.Contains(detail, "ValidateEncodedResponse: accepted=false err=*errors") {
-			r.Nontrivial(fmt.Sprintf("%+v/%d/%v", c.D, c.Cfg, c.Shadow))
+			r.Nontrivial(fmt.Sprintf("%+v/%d/%v/%d/%v", c.D, c.Cfg, c.Shadow, c.Prefix, c.ShadowBelow))
 		}
 		if i%997 == 0 {
 			r.Sample(map[string]interface{}{"case": c, "observed": detail})
